@@ -65,6 +65,7 @@ def summary_table(A):
             for combo in combos:
                 early, cont, after = set(), False, set()
                 unknown = False
+                errs_here = False
                 for s0 in somes:
                     if s0 not in ins:
                         continue
@@ -92,7 +93,10 @@ def summary_table(A):
                     col2 = {}
                     ex = I.run(fr, st2, start=s0, stops={h}, collect=col2)
                     if ex is not None:
-                        a_ = flag_answers(ex.locals.get((fr.fid, 0)))
+                        rv_ = ex.locals.get((fr.fid, 0))
+                        if rv_ is not None and rv_[0] == "adt" and rv_[1] == "std::result::Result" and 1 in adt_variants(rv_):
+                            errs_here = True
+                        a_ = flag_answers(rv_)
                         if a_ is None:
                             unknown = True
                         else:
@@ -105,7 +109,7 @@ def summary_table(A):
                             unknown = True
                         else:
                             after |= a2
-                table[(d, combo)] = dict(early=early, cont=cont, after=after, unknown=unknown)
+                table[(d, combo)] = dict(early=early, cont=cont, after=after, unknown=unknown, err=errs_here)
         out.append(dict(fn=b, negative=negative, table=table, flag_ty=flag_ty, combos=combos))
     A.__dict__["_c04_tab"] = out
     return out
@@ -198,6 +202,61 @@ def rule_invalidated_is_needed(A, R, rule):
              detail="the requirement summary does not answer 'needed' for a downstream in this state whatever the flags say, and %d of %d "
                     "writes of the state leave the incoming dependencies unflagged (or flag them 'not needed')" % (len(unflagged), nw),
              site=A.site(unflagged[0]) if unflagged else "")
+
+
+def rule_summary_accepts_written_flags(A, R, rule):
+    """the requirement summary has no error exit for a dependency flag that some code can write for a downstream of that kind: which
+    (kind of the downstream, flag value) pairs are written is read off every write of the flag; for each reachable downstream
+    state of such a kind the summary's iteration must not end in an error"""
+    from rules_more import requirement_field
+    from rules_compare import all_runs
+    rf = requirement_field(A)
+    tabs = summary_table(A)
+    A.startup_runs()
+    A.handler_runs()
+    written = set()       # (kind of the downstream job, flag value)
+    for (entry, label), run in all_runs(A):
+        for w in run.by_kind("write_edge"):
+            if w["proj"] != rf or w["value"][0] != "fin":
+                continue
+            kinds_b = set()
+            for (sym, sts, _x) in (w.get("cells") or ()):
+                if sym == w["b"] and sts is not None:
+                    kinds_b |= set(A.kind_of(s_) for s_ in sts)
+            if not kinds_b:
+                kinds_b = set(A.kind_of(s_) for s_ in A.reach())
+            for val in w["value"][2]:
+                for k_ in kinds_b:
+                    written.add((k_, val))
+    R.info["written_requirement_flags"] = sorted("%s:%s" % (k_, v_) for (k_, v_) in written)
+    n = 0
+    for tab in tabs:
+        # position of the requirement flag inside a combo
+        fin_fields = [i for i, f in enumerate(A.L.edge_fields) if f["ty"].get("adt") in A.uni.fin]
+        rf_i = rf[0][1] if rf and rf[0][0] == "f" else None
+        pos = fin_fields.index(rf_i) if rf_i in fin_fields else None
+        if pos is None:
+            continue
+        # the summary is asked on behalf of a job that is not finished: a direct downstream of such a job cannot have passed the
+        # 'all upstreams finished' gate (C02) - it is still pending, or it was finished from outside by an upstream failure
+        # (states finished by a skip or an abort are left out: whether they can coexist with an unfinished upstream is an
+        # inter-job invariant that is not decided here)
+        from rules_more import delayed_states
+        C = A.classes()
+        gated = C["Ready"] | C["Running"] | set(delayed_states(A))
+        feasible = set(d_ for d_ in A.reach() if d_ not in gated and (d_ not in C["Finished"] or d_ in C["UpstreamFailed"]))
+        bad = {}
+        for (d, combo), e in tab["table"].items():
+            if d not in feasible:
+                continue
+            if (A.kind_of(d), combo[pos]) in written:
+                n += 1
+                if e.get("err"):
+                    bad.setdefault(A.sname(d), set()).add(combo[pos])
+        R.ob(rule, "%s | no error exit for a dependency flag that is written for a downstream of that kind" % short(tab["fn"].name),
+             not bad, detail="error for downstream state / flag value: %s" % sorted((k_, sorted(str(x) for x in v_)) for k_, v_ in bad.items())[:4],
+             site=tab["fn"].span["s"])
+    R.floor(rule, "(downstream state, written flag value) pairs examined in the requirement summary", n, 10)
 
 
 def requirement_walkers(A):
